@@ -21,7 +21,7 @@ Require Import Fggs.Proofs.Einsum_project Fggs.Proofs.Einsum_reindex Fggs.Proofs
 Require Import Fggs.Model.Trop Fggs.Model.XVal Fggs.Proofs.Einsum_argmax Fggs.Proofs.Einsum_vit Fggs.Proofs.Einsum_examples Fggs.Proofs.Einsum_oracle Fggs.Proofs.Einsum_orig.
 Require Import Fggs.Proofs.Axis_typed Fggs.Proofs.Axis_total Fggs.Proofs.Einsum_subst.
 Require Import Fggs.Proofs.Einsum_typed_base Fggs.Proofs.Einsum_typed_prep Fggs.Proofs.Einsum_typed_loop Fggs.Proofs.Einsum_typed_cert.
-Require Import Fggs.Proofs.Einsum_typed_main Fggs.Proofs.Einsum_typed_vit Fggs.Proofs.Einsum_typed_ex.
+Require Import Fggs.Proofs.Einsum_typed_main Fggs.Proofs.Einsum_typed_vit Fggs.Proofs.Einsum_typed_ex Fggs.Proofs.Einsum_typed_inst Fggs.Model.EReal.
 Local Open Scope nat_scope.
 
 (** * (a) the dense specification *)
@@ -499,6 +499,15 @@ Theorem C07_typed_operands_sum_example :
   exists p, einsum_model bool_ops Bool.eqb false 10 [ex_c; ex_d] [[0]; [0]] [] = Ok p /\ denote bool p [] = true.
 Proof. exact typed_operands_sum_ex. Qed.
 Print Assumptions C07_typed_operands_sum_example.
+
+(** the hypotheses about the semiring hold for the exact carriers of the check functions (Real / Log:
+    [ereal]; Viterbi: [trop]; Bool) *)
+Theorem C07_typed_carriers :
+  (sr_ring ereal_ops /\ (forall a b, eeqb a b = true -> a = b) /\ eeqb (Semiring.zero ereal_ops) (Semiring.zero ereal_ops) = true) /\
+  (sr_ring trop_ops /\ (forall a b, teqb a b = true -> a = b) /\ teqb (Semiring.zero trop_ops) (Semiring.zero trop_ops) = true) /\
+  (sr_ring bool_ops /\ (forall a b, Bool.eqb a b = true -> a = b) /\ Bool.eqb (Semiring.zero bool_ops) (Semiring.zero bool_ops) = true).
+Proof. exact typed_carriers. Qed.
+Print Assumptions C07_typed_carriers.
 
 (** ... and those of [C07_argmax_typed] on the first pair (Boolean semiring, selective addition) *)
 Theorem C07_argmax_typed_example :
